@@ -8,7 +8,7 @@ lvalue (field, array slot, out-parameter), a reference-stealing call.
 A return reached with w:v > 0 is a leak; Py_DECREF(v) with v known NULL on the
 path is a crash.
 """
-from ..cir import strip, strip_parens, path, callee, text, const_int
+from ..cir import strip, strip_parens, path, callee, text, const_int, base_var
 from ..cfg import CFG
 from ..flow import Analysis, sget, sset, sdel, witness_lines
 from ..common import AnalysisError
@@ -27,6 +27,46 @@ DECREF = ("Py_DECREF", "Py_XDECREF", "Py_CLEAR")
 INCREF = ("Py_INCREF", "Py_XINCREF")
 OUT_OF_SCOPE = ("module_init", "init_persist_type", "init_tree_type",
                 "init_type_with_meta_base")
+
+
+# RELEASE-ATTACHED: reference slots of container nodes
+NODE_STRUCTS = ("Bucket_s", "BTree_s", "BTreeItem_s", "Bucket", "BTree", "BTreeItem")
+SLOT_FIELDS = ("keys", "values", "key", "child", "next", "firstbucket")
+# accepted idioms (one named construct + reason each)
+ATTACHED_OK = {
+    ("_BTree_set", "d->child"):
+        "the child released here is empty (the code is reached only with "
+        "childlength == 0): an empty node of the built-in types holds no user "
+        "object and has no weak references, so its release runs no foreign code",
+    ("_BTree_set", "self->firstbucket"):
+        "the first bucket released here is the emptied leaf that is being "
+        "unlinked (status 2 / childlength == 0): its release runs no foreign code",
+    ("bucket_fromBytes", "self->next"):
+        "fs buckets store native 2- and 6-byte strings only: releasing a "
+        "successor bucket frees memory and runs no foreign code",
+}
+
+
+def node_slot(e):
+    """(path, field) when e designates a reference slot (key, value, child,
+    next, firstbucket) of a Bucket / BTree / BTreeItem, else None."""
+    e = strip(e)
+    if e is None:
+        return None
+    m = e
+    if m.k == "ArraySubscriptExpr":
+        m = strip(m.kids[0])
+    if m is None or m.k != "MemberExpr" or m.n not in SLOT_FIELDS:
+        return None
+    if (m.n in ("keys", "values")) != (e.k == "ArraySubscriptExpr"):
+        return None
+    owner = strip(m.kids[0])
+    t = (owner.t or "") if owner is not None else ""
+    t = t.replace("struct ", "").replace("*", " ").split()
+    if not t or t[-1] not in NODE_STRUCTS and t[0] not in NODE_STRUCTS:
+        return None
+    p = path(e) or text(e).replace(" ", "")
+    return p, m.n
 
 
 def _is_objptr(t):
@@ -49,6 +89,10 @@ class RefAnalysis(Analysis):
         self._seen = set()
         self.ret_owned = False
         self.sources = 0
+        self.attached_sites = set()
+        self.slot_loads = set()
+        self.slot_releases = set()
+        self.attached_accepted = set()
         self._src_ids = set()
         self.params = set(k.n for k in cfg.fn.kids if k.k == "ParmVarDecl")
 
@@ -128,9 +172,22 @@ class RefAnalysis(Analysis):
             o = "b:%s" % v
             st = sset(st, "a:" + v, o)
         cur = sget(st, "w:" + o, 0)
+        if delta < 0 and cur == 0 and o.startswith("g:") and sget(st, "S:" + o) and node is not None:
+            self.slot_releases.add(node.id)
         if delta < 0 and cur == 0 and o.startswith("g:") and not sget(st, "H:" + o) and node is not None:
             # a reference borrowed from a field is given away
             st = sset(st, "P:" + o, node.where)
+            src = sget(st, "G:" + o)
+            if sget(st, "S:" + o):
+                self.attached_sites.add(node.id)
+                self.report("RELEASE-ATTACHED", node, st,
+                            "%s released while %s still points at it" % (v, src),
+                            "%s was loaded from the container slot %s and is "
+                            "released before that slot is overwritten or "
+                            "removed: releasing an object can run arbitrary "
+                            "code (finalizer, weak-reference callback) which "
+                            "then finds the container pointing at an object "
+                            "that is being destroyed" % (v, src))
         n = cur + delta
         n = max(0, min(2, n))
         return sset(st, "w:" + o, n if n else None)
@@ -190,7 +247,38 @@ class RefAnalysis(Analysis):
                                     o1 if (k.startswith("a:") and val == o) else val) for k, val in st)
                 st = sset(st, "a:" + v, o)
                 st = sset(st, "G:" + o, path(r0))
+                if node_slot(r0) is not None:
+                    st = sset(st, "S:" + o, 1)
+                    self.slot_loads.add(node.id)
         return st
+
+    def _copy_of_field(self, st, name, rhs):
+        """D:<local> = the field a plain pointer local was copied from (it
+        becomes '<detached>' once that field is stored again)."""
+        st = sdel(st, "D:" + name)
+        r0 = strip(rhs) if rhs is not None else None
+        if r0 is not None and r0.k == "MemberExpr" and path(r0) is not None and \
+                name in self.locals and name not in self.params:
+            st = sset(st, "D:" + name, path(r0))
+        return st
+
+    def _detach(self, st, pred):
+        """The slots selected by pred(path) stop pointing at what was loaded
+        from them (overwritten, shifted over, or cut off by a length store)."""
+        for kk, val in list(st):
+            if kk.startswith("G:") and pred(val):
+                o2 = kk[2:]
+                st = sset(st, "H:" + o2, 1)
+                st = sdel(st, "P:" + o2)
+        return st
+
+    @staticmethod
+    def _array_of(p):
+        if "[" in p:
+            return p.split("[")[0]
+        if "->" in p:
+            return p.rsplit("->", 1)[0]
+        return p
 
     def _walk(self, node, st, e):
         k = e.k
@@ -202,6 +290,8 @@ class RefAnalysis(Analysis):
                         st = self._walk(node, st, init[-1])
                         if self.tracked(d.n):
                             st = self._assign_var(node, st, d.n, init[-1])
+                        else:
+                            st = self._copy_of_field(st, d.n, init[-1])
             return st
         if k == "BinaryOperator" and e.v == "=":
             st = self._walk(node, st, e.kids[1])
@@ -210,12 +300,15 @@ class RefAnalysis(Analysis):
             if v is not None:
                 return self._assign_var(node, st, v, e.kids[1])
             lp = path(e.kids[0])
+            if lp is not None and l0 is not None and l0.k == "DeclRefExpr":
+                st = self._copy_of_field(st, lp, e.kids[1])
             if lp is not None:
                 for kk, val in list(st):
-                    if kk.startswith("G:") and val == lp:
-                        o2 = kk[2:]
-                        st = sset(st, "H:" + o2, 1)
-                        st = sdel(st, "P:" + o2)
+                    if kk.startswith("D:") and val == lp:
+                        st = sset(st, kk, "<detached>")
+                st = self._detach(st, lambda q: q == lp or self._array_of(q) == lp)
+                if lp.endswith("->len"):
+                    st = self._detach(st, lambda q: "[" in q or q.endswith(("->key", "->child", ".key", ".child")))
             # store into a non-local lvalue transfers ownership of the rhs var
             r = self._var(e.kids[1])
             if r is not None and l0 is not None and l0.k in (
@@ -235,11 +328,23 @@ class RefAnalysis(Analysis):
                         st = sset(st, "a:" + r, o)
                     st = sset(st, "t:" + o, 1)
             return st
+        if k in ("UnaryOperator", "CompoundAssignOperator") and e.kids and \
+                (k == "CompoundAssignOperator" or e.v in ("++", "--", "post++", "post--")):
+            lp = path(e.kids[0])
+            for c2 in e.kids:
+                st = self._walk(node, st, c2)
+            if lp is not None and lp.endswith("->len"):
+                st = self._detach(st, lambda q: "[" in q or q.endswith(("->key", "->child", ".key", ".child")))
+            return st
         if k == "CallExpr":
             c = callee(e)
             args = e.kids[1:]
             for a in args:
                 st = self._walk(node, st, a)
+            if c[0] == "fn" and c[1] in ("memmove", "memcpy") and args:
+                dst = text(args[0])
+                st = self._detach(st, lambda q: dst == self._array_of(q) or
+                                  dst.startswith(self._array_of(q) + " "))
             # out-parameters: &v passed to a call
             for i, a in enumerate(args):
                 a0 = strip(a)
@@ -271,6 +376,27 @@ class RefAnalysis(Analysis):
                                         "%s is NULL on this path and reaches Py_INCREF" % v)
                 elif c[1] in DECREF and args:
                     v = self._var(args[0])
+                    slot = node_slot(args[0]) if v is None else None
+                    if slot is not None:
+                        self.attached_sites.add(node.id)
+                        why = ATTACHED_OK.get((self.cfg.fn.n, slot[0]))
+                        root = base_var(args[0])
+                        if root is not None and sget(st, "D:" + root) == "<detached>":
+                            # the array was taken out of its node before
+                            pass
+                        elif why is not None:
+                            self.attached_accepted.add("%s: %s - %s" % (self.cfg.fn.n, slot[0], why))
+                        else:
+                            self.report("RELEASE-ATTACHED", node, st,
+                                        "%s released in place" % slot[0],
+                                        "%s(%s) releases the object while the "
+                                        "container slot still points at it: "
+                                        "releasing can run arbitrary code "
+                                        "(finalizer, weak-reference callback) "
+                                        "which then finds a pointer to an "
+                                        "object that is being destroyed. Take "
+                                        "the reference into a local, update "
+                                        "the slot, then release" % (c[1], slot[0]))
                     if v is not None:
                         fl = sget(st, "f:" + v)
                         if c[1] == "Py_DECREF" and fl == 0:
@@ -462,6 +588,8 @@ def analyse_tu(tu):
     outown = infer_outown(tu, newref)
     findings = []
     sources = funcs = 0
+    slot_loads = attached = taken = 0
+    accepted = set()
     for name in tu.order:
         if name in OUT_OF_SCOPE or name.startswith("PyInit_"):
             continue
@@ -471,6 +599,10 @@ def analyse_tu(tu):
         an.check_exits()
         funcs += 1
         sources += an.sources
+        slot_loads += len(an.slot_loads)
+        attached += len(an.attached_sites)
+        taken += len(an.slot_releases)
+        accepted |= an.attached_accepted
         for rule, node, st, what, detail in an.reports:
             findings.append(dict(
                 rule=rule, function=name, file=node.where.split(":")[0],
@@ -478,6 +610,8 @@ def analyse_tu(tu):
                 path=witness_lines(an.witness(node, st))))
     return dict(findings=findings,
                 stats={"functions": funcs, "newref_sources": sources,
+                       "slot_loads": slot_loads, "slot_release_sites": attached, "slot_takeover_releases": taken,
+                       "attached_accepted": sorted(accepted),
                        "out_owned": {k: sorted(v) for k, v in outown.items()},
                        "newref_functions": len(newref)})
 
